@@ -412,7 +412,17 @@ def coefficients(ctx):
         ok = (isinstance(fct, ast.Subscript) and isinstance(fct.value,
               ast.Subscript) and ast.unparse(fct.value.value) == 'self.h'
               and isinstance(fct.slice, ast.Tuple))
-        ctx.anchor(ok, f'volume factor `{ast.unparse(fct)}`')
+        if not ok:
+            # (new temporaries were propagated by the loader: what is left is
+            # a factor that is not a stored width vector)
+            ctx.fail('C02.O4.vol', 'BaseMesh.cell_volumes: product of the '
+                     'stored widths', f'the factor `{ast.unparse(fct)[:60]}` '
+                     'of the cell volumes is not one of the stored width '
+                     'vectors self.h[a] (e.g. widths re-derived as '
+                     'differences of node coordinates lose digits at large '
+                     'origins): V in eta and zeta is no longer hx*hy*hz of '
+                     'the widths the curls use', ctx.where(me, fct))
+            return
         hax = fct.value.slice.value
         pos = [i for i, e in enumerate(fct.slice.elts)
                if isinstance(e, ast.Slice)]
